@@ -7,7 +7,11 @@ rows = []
 for m in sorted(glob.glob(os.path.join(here, "seeded", "*", "meta.json"))):
   d = json.load(open(m))
   name = os.path.basename(os.path.dirname(m))
-  rows.append((d["property"], name, d["needs"].replace("|", "/")))
+  needs = d["needs"].replace("|", "/")
+  if d.get("expect") == "silent":
+    needs += " -- **NOT caught (documented miss)**: " + \
+        d.get("why_silent", "").replace("|", "/")
+  rows.append((d["property"], name, needs))
 rows.sort()
 out = ["| property | seeded change | needs, to manifest |", "|---|---|---|"]
 for p, n, needs in rows:
